@@ -9,7 +9,7 @@ func cfgC06(tier string) e1Cfg {
 	t := baseTxn()
 	t.MergePct = 45
 	return e1Cfg{Prop: "C06", Kinds: allKinds, LateKinds: []Kind{KInt, KString, KEnum}, KeyedPct: 25, LayoutPct: 50, Steps: steps(tier, 90, 300), Pool: "edge",
-		Replica: true, NIdx: 3, NSorted: 1, PIdxChg: 3, PNewCol: 1, Txn: t, DumpEvery: 2, Oracles: oracleSet("replica")}
+		Replica: true, NIdx: 3, NSorted: 1, PIdxChg: 3, PNewCol: 1, Txn: t, DumpEvery: 2, Oracles: oracleSet("replica"), DensePct: 8}
 }
 
 func cfgC15(tier string) e1Cfg {
